@@ -56,8 +56,10 @@ def int_range(d):
     return -(2 ** (size - 1)), 2 ** (size - 1) - 1, explicit
 
 def max_len_of(d):
-    if d['args']: return d['args'][0]
-    return d['kw'].get('max_len')
+    # max_len=0 is treated by Pony as "no limit" throughout (the column becomes TEXT): the declaration
+    # does not state a usable bound, so the reference does not invent one
+    ml = d['args'][0] if d['args'] else d['kw'].get('max_len')
+    return None if (ml == 0 and not isinstance(ml, bool)) else ml
 
 def nullable(d):
     if d['kind'] == 'Required': return False
